@@ -105,7 +105,43 @@ pub fn random_history(cfg: &RandCfg, rng: &mut StdRng, r: &mut Recorder, clients
         if rng.gen_bool(0.3) {
             clock += 1;
         }
-        let rec = if roll < 18 {
+        let members_profile = cfg.profile == "members";
+        let rec = if members_profile && roll < 6 {
+            // membership / admin / routing changes
+            let post = w.project(&c, g);
+            let cur_members: Vec<String> = post["members"].as_array().map(|a| a.iter().map(|x| x.as_str().unwrap().to_string()).collect()).unwrap_or_default();
+            let outsiders: Vec<String> = clients.iter().map(|x| x.to_string()).filter(|x| !cur_members.contains(x)).collect();
+            let others: Vec<String> = cur_members.iter().filter(|x| **x != c).cloned().collect();
+            let mut rk = rank;
+            while used_ranks.contains(&(ts * 100 + rk)) { rk = rk % 15 + 1; }
+            used_ranks.insert(ts * 100 + rk);
+            match rng.gen_range(0..5) {
+                0 if !others.is_empty() => {
+                    let t = others[rng.gen_range(0..others.len())].clone();
+                    Some(exec_action(&mut w, &json!({"op":"Commit","c":c,"g":g,"kind":"remove","arg":[t],"ts":ts,"rank":rk})))
+                }
+                1 if !outsiders.is_empty() => {
+                    let t = outsiders[rng.gen_range(0..outsiders.len())].clone();
+                    Some(exec_action(&mut w, &json!({"op":"Commit","c":c,"g":g,"kind":"add","arg":[t],"ts":ts,"rank":rk})))
+                }
+                2 if !cur_members.is_empty() => {
+                    let mut adm: Vec<String> = cur_members.iter().filter(|_| rng.gen_bool(0.5)).cloned().collect();
+                    if adm.is_empty() { adm.push(cur_members[0].clone()); }
+                    Some(exec_action(&mut w, &json!({"op":"Commit","c":c,"g":g,"kind":"admins","arg":adm,"ts":ts,"rank":rk})))
+                }
+                3 => Some(exec_action(&mut w, &json!({"op":"Commit","c":c,"g":g,"kind":"rotate","arg":"","ts":ts,"rank":rk}))),
+                _ => Some(exec_action(&mut w, &json!({"op":"Leave","c":c,"g":g,"ts":ts,"rank":rk}))),
+            }
+        } else if members_profile && roll < 9 {
+            // welcome handling for invited clients
+            let mine: Vec<String> = w.welcomes.iter().filter(|(_, wi)| wi.to == c).map(|(k, _)| k.clone()).collect();
+            if mine.is_empty() { None } else {
+                let wn = mine[rng.gen_range(0..mine.len())].clone();
+                let what = ["process", "accept", "accept", "decline"][rng.gen_range(0..4)];
+                Some(exec_action(&mut w, &json!({"op":"Welcome","c":c,"w":wn,"what":what})))
+            }
+        } else if roll < 18 {
+
             let kinds = ["rename", "redesc", "self_update", "relays", "rename", "self_update"];
             let kind = kinds[rng.gen_range(0..kinds.len())];
             let arg = match kind {
@@ -148,7 +184,11 @@ pub fn random_history(cfg: &RandCfg, rng: &mut StdRng, r: &mut Recorder, clients
                 let ok = (cfg.regime != "causal" || held[&c].contains(&parent)) && !withdrawn.contains(&e);
                 if ok {
                     delivered.insert(e.clone());
-                    Some(exec_action(&mut w, &json!({"op":"Deliver","c":c,"e":e,"ts":ts,"rank":0})))
+                    let mut rk = rank;
+                    while used_ranks.contains(&(ts * 100 + rk)) { rk = rk % 15 + 1; }
+                    let v = exec_action(&mut w, &json!({"op":"Deliver","c":c,"e":e,"ts":ts,"rank":rk}));
+                    if v["out"] != json!("") { used_ranks.insert(ts * 100 + rk); }
+                    Some(v)
                 } else {
                     None
                 }
@@ -178,7 +218,10 @@ pub fn random_history(cfg: &RandCfg, rng: &mut StdRng, r: &mut Recorder, clients
                 continue;
             }
             let before = fingerprint(&w.project(&c, g));
-            let v = exec_action(&mut w, &json!({"op":"Deliver","c":c,"e":e,"ts":clock,"rank":0}));
+            let mut rk = 1u64;
+            while used_ranks.contains(&(clock * 100 + rk)) { rk += 1; if rk > 15 { clock += 1; rk = 1; } }
+            let v = exec_action(&mut w, &json!({"op":"Deliver","c":c,"e":e,"ts":clock,"rank":rk}));
+            if v["out"] != json!("") { used_ranks.insert(clock * 100 + rk); }
             let after = fingerprint(&v["post"]);
             r.emit(v);
             note_chain(&mut w, &mut held, &c);
